@@ -286,6 +286,12 @@ impl CelsData<RawPixels> {
                         frame: frame as u16,
                         layer: layer as u16,
                     };
+                    if layer >= num_layers {
+                        return Err(AsepriteParseError::InvalidInput(format!(
+                            "Cel {} references a layer that does not exist",
+                            cel_id
+                        )));
+                    }
                     Some(cel.validate(
                         cel_id,
                         layers,
